@@ -597,6 +597,21 @@ func (env *specEnv) call(e *ast.CallExpr) Val {
 				return Val{T: t, Sort: "Int"}
 			}
 		}
+		if sel, ok := e.Args[0].(*ast.SelectorExpr); ok {
+			base := env.eval(sel.X)
+			if base.Ty != nil {
+				if p, ok := base.Ty.Underlying().(*types.Pointer); ok {
+					if su, ok := p.Elem().Underlying().(*types.Struct); ok {
+						for k := 0; k < su.NumFields(); k++ {
+							if su.Field(k).Name() == sel.Sel.Name {
+								fv.eng.needFieldAddr()
+								return Val{T: fmt.Sprintf("(addr.field %s %d)", base.T, k), Sort: "Int"}
+							}
+						}
+					}
+				}
+			}
+		}
 		return env.fail("addr() of a variable that is not heap-resident")
 	case "off":
 		return Val{T: sOff(arg(0).T), Sort: "Int"}
